@@ -216,12 +216,19 @@ def finishDef (st : St) (d : Nat) (dt : DefinedType) : Outcome (St × ValueType)
   let (st, id) := addDefined st dt
   .ok (cacheInsert st (.any (.defined d)) (.type (.value (.defined id))), .defined id)
 
+theorem finishDef_frame {st st' : St} {d : Nat} {dt : DefinedType} {v : ValueType}
+    (h : finishDef st d dt = .ok (st', v)) : Frame st st' := by
+  simp only [finishDef] at h
+  cases h
+  have hfr : Frame st (Decode.addDefined st dt).1 := Frame.ofAddDefined st dt
+  exact ⟨hfr.ext, hfr.size, hfr.rmap⟩
+
 theorem finishDef_ok {st st' : St} {d : Nat} {dt : DefinedType} {v : ValueType}
     (hinv : Inv w ρ oi ow c st)
     (hfact : ∀ g t, valTree w g (.ty d) = some t → ∀ T' F, Ext oi ow st.types T' → bnd c st + 1 ≤ F →
       unfoldDefined (Types.unfoldVT T' F) dt = some (renT ρ t))
     (h : finishDef st d dt = .ok (st', v)) :
-    Frame st st' ∧ Inv w ρ oi ow c st' ∧ RV w ρ oi ow c st' (.ty d) v := by
+    Inv w ρ oi ow c st' ∧ RV w ρ oi ow c st' (.ty d) v := by
   simp only [finishDef] at h
   cases h
   have hfr : Frame st (Decode.addDefined st dt).1 := Frame.ofAddDefined st dt
@@ -239,7 +246,7 @@ theorem finishDef_ok {st st' : St} {d : Nat} {dt : DefinedType} {v : ValueType}
       he.defined _ _ (by simp [Decode.addDefined])
     simp only [Types.unfoldVT, hd]
     exact hfact g t ht T' F' (hfr.ext.of_nil.trans he) (by omega)
-  exact ⟨⟨hfr.ext, hfr.size, hfr.rmap⟩, hinv1.insertDefined d _ hrv, hrv⟩
+  exact ⟨hinv1.insertDefined d _ hrv, hrv⟩
 
 /-- `component_defined_type` with the local closures named -/
 theorem definedType_succ (w : WTypes) (fuel : Nat) (st : St) (d : Nat) :
